@@ -438,6 +438,14 @@ func evaluate(c *fw.Ctx, w *wcase, r *wresult) *verdict {
 	return nil
 }
 
+func totalLen(bs [][]byte) int {
+	n := 0
+	for _, b := range bs {
+		n += len(b)
+	}
+	return n
+}
+
 func stringsOf(bs [][]byte) []string {
 	out := make([]string, len(bs))
 	for i, b := range bs {
@@ -764,6 +772,9 @@ func bucket(v int) string {
 
 func finish(c *fw.Ctx, w *wcase, r *wresult) {
 	account(c, w)
+	if strings.HasSuffix(w.ID, ":7") || strings.HasPrefix(w.ID, "fixed:") {
+		c.Sample(map[string]any{"id": w.ID, "kind": w.Kind, "input_bytes": len(w.Text) + totalLen(w.Texts), "pieces": len(r.Pieces), "size": fmt.Sprintf("%+v", w.Size.Max), "overlap": fmt.Sprintf("%+v", w.Overlap)})
+	}
 	if v := evaluate(c, w, r); v != nil {
 		c.Fail("", w.Kind+"/"+v.class, w.ID, v.what, detailOf(w, r))
 	}
